@@ -59,6 +59,10 @@ def fixed_cases():
         'same-eid-other-thread-end': [(1, A, 1), (2, A, 2), (1, A, 2)],
         'empty': [],
     }
+    # long windows (a call that encloses more than a thousand records of its thread): nothing may be dropped
+    for n in (1022, 1023, 1024, 1025, 2500):
+        hs['long-%d' % n] = [(1, A, 1)] + [(1, B, 0)] * n + [(1, A, 2)]
+    hs['long-nested'] = [(1, A, 1), (1, B, 1)] + [(1, U, 0)] * 1100 + [(1, B, 2), (1, A, 2)]
     out = []
     for nm, h in hs.items():
         out.append({'codes': codes, 'events': [[i, t, e, q, z] for i, (t, e, q) in enumerate(h)],
